@@ -22,6 +22,15 @@ pub use serde_json;
 
 pub const VERIF_DIR: &str = "/verif";
 
+/// Where evidence goes (sub-runs under a sanitizer redirect it).
+pub fn evidence_dir() -> String {
+    std::env::var("VERIF_EVIDENCE_DIR").unwrap_or_else(|_| format!("{}/evidence", VERIF_DIR))
+}
+
+pub fn replays_dir() -> String {
+    std::env::var("VERIF_REPLAYS_DIR").unwrap_or_else(|_| format!("{}/replays", VERIF_DIR))
+}
+
 #[derive(Clone, Copy, Debug, Eq, PartialEq)]
 pub enum Tier {
     Quick,
@@ -398,7 +407,7 @@ impl Run {
         let fresh = self.violation_sigs.lock().unwrap().insert(sig.to_string());
         let mut v = self.violations.lock().unwrap();
         if fresh && v.len() < self.max_violation_files {
-            let dir = PathBuf::from(format!("{}/replays/{}", VERIF_DIR, self.id));
+            let dir = PathBuf::from(format!("{}/{}", replays_dir(), self.id));
             let _ = fs::create_dir_all(&dir);
             let path = dir.join(format!("{}-{}.json", self.tier.name(), v.len()));
             let body = json!({
@@ -483,7 +492,7 @@ impl Run {
             "violations": nviol,
             "violation_replays": violations.iter().map(|v| json!({"sig": v.0, "replay": v.1})).collect::<Vec<_>>(),
         });
-        let dir = format!("{}/evidence", VERIF_DIR);
+        let dir = evidence_dir();
         let _ = fs::create_dir_all(&dir);
         let path = format!("{}/{}.json", dir, self.id);
         if let Err(e) = fs::write(&path, serde_json::to_string_pretty(&ev).unwrap() + "\n") {
